@@ -232,11 +232,32 @@ def candidates(args):
     return out
 
 
-def match_table(builtin, toml, cmds):
+_RE_SUPPORTED = {}   # pattern -> does the model compute findall itself (driver op re_supported)
+RE_STATS = {"patterns_computed_by_model": set(), "patterns_on_table_path": set(), "table_rows_sent": 0}
+
+
+def model_computes(drv, pats):
+    todo = [p for p in pats if p not in _RE_SUPPORTED]
+    if todo and drv is not None:
+        rep = drv.ask({"op": "re_supported", "patterns": todo})["supported"]
+        for p_, ok in zip(todo, rep):
+            _RE_SUPPORTED[p_] = bool(ok)
+    return {p_: _RE_SUPPORTED.get(p_, False) for p_ in pats}
+
+
+def match_table(builtin, toml, cmds, drv=None):
+    """`re.findall` results for the patterns the model does NOT compute itself (outside the fragment of
+    Model/Regex.lean, or two and more groups); for all other patterns nothing is supplied"""
     pats = {}
     for r in all_rules(builtin, toml):
         if r.get("action") == "extend_match" and "pattern" in r and r.get("flags"):
             pats[r["flags"][0]] = r["pattern"]
+    if not pats:
+        return []
+    sup = model_computes(drv, sorted(set(pats.values())))
+    for p_, ok in sup.items():
+        RE_STATS["patterns_computed_by_model" if ok else "patterns_on_table_path"].add(p_)
+    pats = {f0: p_ for f0, p_ in pats.items() if not sup[p_]}
     if not pats:
         return []
     extra = []
@@ -255,6 +276,7 @@ def match_table(builtin, toml, cmds):
             ms = rx.findall(v)
             if ms:
                 tab.append([f0, v, [m if isinstance(m, str) else str(m) for m in ms]])
+    RE_STATS["table_rows_sent"] += len(tab)
     return tab
 
 
@@ -284,7 +306,7 @@ def render_logs(logs):
 
 def model_case(drv, builtin, text, cmds):
     uj, toml = user_json(text)
-    req = {"op": "c12", "user": uj, "matches": match_table(builtin, toml, cmds), "dump": True,
+    req = {"op": "c12", "user": uj, "matches": match_table(builtin, toml, cmds, drv), "dump": True,
            "cmds": [{"argv0": os.path.basename(c["argv0"]), "argv": c["argv"], "file": c.get("file", ""), "filedir": c.get("filedir", "")} for c in cmds]}
     rep = drv.ask(req)
     out = {"load_logs": render_logs(rep["load_logs"]), "map": rep.get("map"), "results": []}
@@ -532,7 +554,7 @@ CONST_FLAGS = ["-fmode1", "-fmode2", "-fmode3", "--long-a", "--long-b", "-x", "-
 VALUE_FLAGS = ["-ftargets", "--targets", "-march", "--offload-arch", "-fsycl-targets", "--gpu-architecture", "-gencode", "-Xarch"]
 # one regular expression per flag spelling, so that the harness-supplied match table is unambiguous
 FLAG_PATTERN = {"-ftargets": r"[a-z]+\d*", "--targets": r"t(\d)", "-march": r"(?:sm_|compute_)(\d+)", "--offload-arch": r"[a-z0-9_]+",
-                "-fsycl-targets": r"spir64\w*", "--gpu-architecture": r"(?:sm_|compute_)(\d+)", "-gencode": r"(?:sm_|compute_)(\d+)", "-Xarch": r"x(\d)"}
+                "-fsycl-targets": r"spir64\w*", "--gpu-architecture": r"(?:sm_|compute_)(\d+)", "-gencode": r"(?:sm_|compute_)(\d+)", "-Xarch": r"^x(\d)"}  # `^` is outside the fragment of Model/Regex.lean: this flag keeps the table path alive
 VALUES = ["a,b", "a", "b:c", "t1,t2", "sm_70", "sm_80,sm_70", "arch=compute_80,code=sm_80", "x1 x2", "spir64,spir64_gen", "dev-a,dev-b", "p1", "p1,p2", "1,2", "", "zz"]
 
 
@@ -888,7 +910,16 @@ class Checker:
                         report["spec"].append(spec_rec)
                         continue
                     its = its + [tuple(i) for i in imp]
-                want, active = spec_configs(comp, its)
+                try:
+                    want, active = spec_configs(comp, its)
+                except (KeyError, ValueError) as e:
+                    # a `format` that string.Template cannot substitute in a configuration without generated hazards
+                    # (e.g. an edited shipped rule): the flag cannot contribute what is declared for it
+                    ctx.violation(f"'{name}' {cmd['argv']}: the format of a parser rule cannot be substituted ({type(e).__name__}: {e}); "
+                                  f"implementation: {g.get('exc', 'no exception')}", sub)
+                    spec_rec["skipped"] = "format of a rule cannot be substituted"
+                    report["spec"].append(spec_rec)
+                    continue
                 spec_rec["configs"] = want
                 nontriv = len(want) > 1 or any(len(v["defines"]) > sum(1 for i in its if i[0] == "D") for v in want.values())
                 if nontriv:
@@ -1340,7 +1371,11 @@ def e2e_case(ck, case):
     for pname, entries in case["platforms"].items():
         for e in entries:
             _res, comp = merged_rules(comps, os.path.basename(e["compiler"]))
-            cfgs, _a = spec_configs(comp, [tuple(i) for i in e["items"]] + list(implicit_items(comp) or []))
+            try:
+                cfgs, _a = spec_configs(comp, [tuple(i) for i in e["items"]] + list(implicit_items(comp) or []))
+            except (KeyError, ValueError) as ex:
+                ctx.violation(f"e2e: the format of a parser rule of '{e['compiler']}' cannot be substituted ({type(ex).__name__}: {ex})", case)
+                return {"skipped": "format of a rule cannot be substituted"}
             for p, cfg in cfgs.items():
                 dd = defs_dict(cfg["defines"])
                 for h in cfg["include_files"]:
@@ -1424,7 +1459,7 @@ def e2e_case(ck, case):
             ctx.violation(f"load_database entries {ge} expected (one per pass) {sorted(se, key=json.dumps)}", case)
         if ck.drv is not None:
             uj, toml = user_json(case["config"])
-            rep = ck.drv.ask({"op": "c12", "user": uj, "matches": match_table(ck.builtin, toml, all_cmds), "db": True,
+            rep = ck.drv.ask({"op": "c12", "user": uj, "matches": match_table(ck.builtin, toml, all_cmds, ck.drv), "db": True,
                               "cmds": [{"argv0": os.path.basename(c["argv0"]), "argv": c["argv"], "file": c["file"], "filedir": c["filedir"]} for c in all_cmds]})
             me = sorted(([e["file"], e["cfg"]["pass"], e["cfg"]["defines"], e["cfg"]["include_paths"], e["cfg"]["include_files"]]
                          for e in rep.get("db_entries", [])), key=json.dumps)
@@ -1475,13 +1510,95 @@ def stream_e2e(ck, rng, n):
 # --------------------------------------------------------------------------
 # entry points
 # --------------------------------------------------------------------------
+def shipped_case(ck, case, g=None):
+    """documented meaning of the shipped value rules vs the implementation (closed forms of Props/C12Regex.lean):
+    nvcc --gpu-architecture / --gpu-code / -gencode V  selects pass sm_N for every sm_N / compute_N in V (driver op
+    nv_arch = CompilersRe.nvArchs), replacing the default device pass; icx -fsycl-targets=a,b selects sycl-a, sycl-b.
+    A pass yields a configuration iff it is declared in the *.toml (the pass tables themselves may be edited)."""
+    ctx = ck.ctx
+    cmd = case["cmds"][0]
+    kind, value = case["kind"], case["value"]
+    comps, _ = spec_load(ck.builtin, None)
+    res, comp = merged_rules(comps, os.path.basename(cmd["argv0"]))
+    if comp is None:
+        return {"skipped": "compiler not in the built-in table"}
+    if g is None:
+        g = ck.impl.case(None, [cmd])["results"][0]
+    if kind == "nvcc-arch":
+        archs = ck.drv.ask({"op": "nv_arch", "values": [value]})["results"][0]
+        selected = ["sm_" + a for a in archs]
+    else:
+        selected = ["sycl-" + t for t in value.split(",")]
+    declared = set(comp["passes"])
+    want = sorted({p_ for p_ in selected if p_ in declared} | {"default"})
+    rep = {"impl": g, "selected_by_closed_form": selected, "expected_passes": want}
+    ctx.count(key=f"shipped:{kind}")
+    if len(want) > 1:
+        ctx.nontrivial.add(json.dumps(["shipped", cmd["argv"]]))
+    if "exc" in g:
+        ctx.violation(f"parse_args raised {g['exc']} on {cmd['argv0']} {cmd['argv']}", case)
+        return rep
+    got = sorted(c["pass"] for c in g["ok"])
+    if got != want:
+        ctx.violation(f"{cmd['argv0']} {cmd['argv']}: configurations for passes {got}, the documented meaning of the flag selects {want} "
+                      f"(value names {selected})", case)
+    bad = sorted(m.split(": ", 1)[1] for lv, m in g["logs"] if m and m.startswith("Unrecognized compiler pass"))
+    want_bad = sorted({p_ for p_ in selected if p_ not in declared})
+    if bad != want_bad:
+        ctx.violation(f"{cmd['argv0']} {cmd['argv']}: passes reported as unrecognized {bad}, expected {want_bad}", case)
+    return rep
+
+
+def stream_shipped(ck, rng, n):
+    if ck.drv is None:
+        return
+    from harness.props import c12_regex as R
+    comps, _ = spec_load(ck.builtin, None)
+    cases = []
+    for name, kind in (("nvcc", "nvcc-arch"), ("icx", "sycl-targets"), ("icpx", "sycl-targets")):
+        res, comp = merged_rules(comps, name)
+        if comp is None:
+            continue
+        for r in comp["parser"]:
+            if kind == "nvcc-arch" and r["action"] == "extend_match" and r.get("dest") == "passes":
+                vals = [R.gen_option_value(rng, VALUES) for _ in range(n)]
+            elif kind == "sycl-targets" and r["action"] == "store_split" and r.get("dest") == "passes":
+                tg = ["spir64", "spir64_x86_64", "spir64_gen", "spir64_fpga", "nvptx64-nvidia-cuda", "amdgcn", "x", "spir64 ", "a:b", ""]
+                vals = [",".join(rng.choice(tg) for _ in range(rng.randint(1, 3))) for _ in range(n // 2)]
+            else:
+                continue
+            for v in vals:
+                if v.startswith("-") or (kind == "sycl-targets" and v == ""):
+                    continue
+                f = rng.choice(r["flags"])
+                argv = [f + "=" + v, "x.cu"] if (rng.random() < 0.5 or v == "") else [f, v, "x.cu"]
+                cases.append({"stream": "shipped", "kind": kind, "value": v, "config": None,
+                              "cmds": [{"argv0": name, "argv": argv}], "hazards": []})
+    got = ck.impl.case(None, [c["cmds"][0] for c in cases])["results"]
+    for c, g in zip(cases, got):
+        shipped_case(ck, c, g)
+
+
+def stream_models(ck, rng):
+    """Lean regex / template / split models vs CPython (harness/props/c12_regex.py)"""
+    if ck.drv is None:
+        return
+    from harness.props import c12_regex as R
+    ctx = ck.ctx
+    R.stream_findall(ctx, ck.drv, rng, ck.builtin, FLAG_PATTERN, VALUES, ctx.n(3000, 20000), ctx.n(60, 500))
+    R.stream_template(ctx, ck.drv, rng, ctx.n(400, 4000))
+    R.stream_split(ctx, ck.drv, rng, ctx.n(400, 4000))
+
+
 RULE = ("non-trivial = the command line selects at least one pass besides `default` or a mode / pass / implicit option "
         "contributes at least one definition beyond the -D options (distinct by configuration text + argv); "
         "end-to-end cases (1-2 sources, 1-3 platforms, user compiler with modes / passes incl. an include-only pass, -I directories holding "
         "the same header name, twin commands that differ only in what they include): at least one line is attributed to a proper, "
         "non-empty subset of the platforms")
 ASSUMPTIONS = [
-    "re.findall, string.Template, str.split, tomllib, jsonschema and CPython 3.12 argparse are modelled, not verified; regex results are supplied to the model by the harness",
+    "re.findall is computed by the model (Model/Regex.lean: back-tracking matcher, proved sound; tied to CPython's re by the `regex` stream) for patterns of the supported fragment with at most one group; for any other pattern the harness supplies the findall results as a table (counted in extra.regex_use)",
+    "string.Template, str.split (tied by the `template` / `split` streams), tomllib, jsonschema and CPython 3.12 argparse are modelled, not verified; characters are ASCII (Python's \\d \\w \\s and str.split() are Unicode aware)",
+    "the shipped value rules are additionally judged against their documented meaning (nvcc: every sm_N / compute_N in the value of --gpu-architecture / --gpu-code / -gencode selects pass sm_N; icx: -fsycl-targets=a,b selects sycl-a, sycl-b): the closed forms proved in Props/C12Regex.lean",
     "command lines contain no `--` element and no option value starting with `-` (C11's recorded classes D22 / D23)",
     "set iteration order of passes is abstracted: configurations are compared as a map pass name -> configuration; the order of simultaneously active modes is finding D34",
     "include paths are clean (no `.` / `..` / `//`): normalisation belongs to C13",
@@ -1503,11 +1620,15 @@ def _run(ctx, drv, scale=1.0):
             for name, f in (("corpus", lambda: stream_corpus(ck)), ("builtin", lambda: stream_builtin(ck, rng)),
                             ("random", lambda: stream_random(ck, rng, ctx.n(110, 1200), 8 if not ctx.thorough() else 16)),
                             ("implicit", lambda: stream_implicit(ck, rng, ctx.n(40, 400))), ("hashseed", lambda: stream_hashseed(ck)),
-                            ("e2e", lambda: stream_e2e(ck, rng, ctx.n(25, 300)))):
+                            ("e2e", lambda: stream_e2e(ck, rng, ctx.n(25, 300))),
+                            ("models", lambda: stream_models(ck, rng)), ("shipped", lambda: stream_shipped(ck, rng, ctx.n(200, 2000)))):
                 t0 = _t.time()
                 f()
                 timing[name] = round(_t.time() - t0, 1)
             ctx.extra["stream_seconds"] = timing
+            ctx.extra["regex_use"] = {"patterns_computed_by_model": sorted(RE_STATS["patterns_computed_by_model"]),
+                                      "patterns_on_table_path": sorted(RE_STATS["patterns_on_table_path"]),
+                                      "table_rows_sent": RE_STATS["table_rows_sent"]}
         finally:
             impl.config._compilers = None
 
@@ -1536,6 +1657,13 @@ def replay(ctx, drv, case):
     with core.Scratch() as d:
         impl = Impl(d)
         ck = Checker(ctx, drv, impl, builtin)
+        if case.get("stream") == "shipped":
+            try:
+                rep = shipped_case(ck, case)
+            finally:
+                impl.config._compilers = None
+            rep["violations"] = [w for w, _ in ctx.violations]
+            return rep
         try:
             rep = ck.run_case(case, replay=True)
         finally:
